@@ -487,6 +487,7 @@ Plan genHostile(const std::string& prop, int tier, uint64_t batchSeed, uint64_t 
     const bool enFault = r.chance(4, 5), enOrphan = r.chance(2, 3), enTecmp = r.chance(1, 2), enNoise = r.chance(1, 2), enRestart = r.chance(1, 3),
                enStale = r.chance(1, 3);
     const uint32_t faultRate = static_cast<uint32_t>(r.pick<int64_t>({5, 15, 30, 60}));
+    const bool enAllocFail = r.chance(1, 3);
     if (!c17 && r.chance(1, tier ? 40 : 150))  // (C17 compares the whole pending table after every call: quadratic there)
     {
         // thousands of endpoints with an unfinished message each: tables far beyond any small-scope bound
@@ -601,6 +602,11 @@ Plan genHostile(const std::string& prop, int tier, uint64_t batchSeed, uint64_t 
                 addTransitFault(g, op, est);
                 if (r.chance(1, 4))
                     addTransitFault(g, op, est);
+            }
+            if (prop == "C02" && enAllocFail && r.chance(1, 5))
+            {
+                // failing allocation inside the decode call for one of this operation's frames (the k-th allocation of the call)
+                addFault(op, F_ALLOCFAIL, static_cast<int64_t>(r.below(static_cast<uint64_t>(std::max<int64_t>(1, est)))), static_cast<int64_t>(r.chance(2, 3) ? r.below(4) : r.below(16)));
             }
         }
         else if (sel < 70 && enOrphan)
